@@ -449,6 +449,7 @@ func c08Body(e *Env) {
 		tx.Close()
 		if newMax > 0 {
 			r.Cfg.MaxSize = newMax
+			r.Cfg.InitMeta = 0 // creation-time option; Options.Validate would reject it for a small new limit
 			r.CheckLocksIdle(what)
 		}
 		laterAttempts = nil
